@@ -15,7 +15,15 @@ import (
 // symArgs builds symbolic arguments named after the parameters.
 func symArgs(e *Engine, fn *ssa.Function) []Val {
 	var args []Val
-	for _, prm := range fn.Params {
+	for i, prm := range fn.Params {
+		if fn.Signature.Variadic() && i == len(fn.Params)-1 {
+			// the property's API is the call without optional trailing arguments
+			// (functional options added later default to "none")
+			if sl, ok := prm.Type().Underlying().(*types.Slice); ok {
+				args = append(args, &SliceVal{Nil: true, Lo: formInt(0), Len: formInt(0), Elem: sl.Elem()})
+				continue
+			}
+		}
 		args = append(args, e.SymVal(prm.Name(), prm.Type()))
 	}
 	return args
@@ -55,6 +63,9 @@ func single(p *Program, e *Engine, fn *ssa.Function, args []Val) (Val, error) {
 	outs, err := extract(p, e, fn, args)
 	if err != nil {
 		return nil, err
+	}
+	if v, ok := mergeEqualitySplit(e, outs); ok {
+		return v, nil
 	}
 	if len(outs) != 1 || outs[0].Kind != "return" {
 		var where []string
@@ -255,4 +266,111 @@ func condsKey(o Outcome) string {
 		cs[i] = c.Key()
 	}
 	return strings.Join(cs, " && ")
+}
+
+// mergeEqualitySplit: a function whose only case split is `x == c` (a fast
+// path for one value of an operand) is still a single closed form when the
+// general branch, evaluated at x = c, gives what the special branch returns:
+// f(x) = g(x) for x != c and f(c) = g(c).
+func mergeEqualitySplit(e *Engine, outs []Outcome) (Val, bool) {
+	if len(outs) != 2 || outs[0].Kind != "return" || outs[1].Kind != "return" {
+		return nil, false
+	}
+	for k := 0; k < 2; k++ {
+		eq, ne := outs[k], outs[1-k]
+		if len(eq.St.conds) != 1 || len(ne.St.conds) != 1 {
+			return nil, false
+		}
+		c, n := eq.St.conds[0], ne.St.conds[0]
+		if c.Op != "==" || n.Key() != c.Not().Key() {
+			continue
+		}
+		a, okA := c.A.(*Form)
+		b, okB := c.B.(*Form)
+		if !okA || !okB {
+			continue
+		}
+		if _, isC := a.Const(); isC {
+			a, b = b, a
+		}
+		an, isA := a.SingleAtom()
+		if _, isC := b.Const(); !isA || !isC {
+			continue
+		}
+		env := map[string]*Form{an: b}
+		if valKey(substVal(e, ne.Ret, env, 0)) == valKey(substVal(e, eq.Ret, env, 0)) {
+			return ne.Ret, true
+		}
+	}
+	return nil, false
+}
+
+// substVal replaces atoms in a value, also inside the arguments of
+// uninterpreted applications (which are rebuilt).
+func substVal(e *Engine, v Val, env map[string]*Form, depth int) Val {
+	if v == nil || depth > 12 {
+		return v
+	}
+	switch x := v.(type) {
+	case *Form:
+		full := map[string]*Form{}
+		for a := range x.Atoms() {
+			if r, ok := env[a]; ok {
+				full[a] = r
+				continue
+			}
+			at := e.A.get(a)
+			if at == nil || at.Kind != "app" || len(at.Args) == 0 {
+				continue
+			}
+			changed := false
+			nargs := make([]Val, len(at.Args))
+			for i, arg := range at.Args {
+				nargs[i] = substVal(e, arg, env, depth+1)
+				if valKey(nargs[i]) != valKey(arg) {
+					changed = true
+				}
+			}
+			if changed {
+				full[a] = e.A.App(at.Fn, at.Type, nargs...)
+			}
+		}
+		if len(full) == 0 {
+			return x
+		}
+		return x.Subst(full)
+	case Tuple:
+		out := make(Tuple, len(x))
+		for i, el := range x {
+			out[i] = substVal(e, el, env, depth+1)
+		}
+		return out
+	case *Agg:
+		out := &Agg{Type: x.Type, Elems: make([]Val, len(x.Elems))}
+		for i, el := range x.Elems {
+			out.Elems[i] = substVal(e, el, env, depth+1)
+		}
+		return out
+	case *Opaque:
+		if len(x.Args) == 0 {
+			return x
+		}
+		nargs := make([]Val, len(x.Args))
+		changed := false
+		for i, arg := range x.Args {
+			nargs[i] = substVal(e, arg, env, depth+1)
+			if valKey(nargs[i]) != valKey(arg) {
+				changed = true
+			}
+		}
+		if !changed {
+			return x
+		}
+		ks := make([]string, len(nargs))
+		for i, a := range nargs {
+			ks[i] = valKey(a)
+		}
+		return &Opaque{Key: x.Fn + "(" + strings.Join(ks, ", ") + ")", Type: x.Type, Fn: x.Fn, Args: nargs}
+	}
+	return v
 }
